@@ -5,7 +5,7 @@ Require Extraction.
 Require Import ExtrOcamlBasic.
 From Coq Require Import NArith ZArith.
 From WMD Require Import Lib.Str Lib.PyChars Model.ContentType Model.Server Model.Etag Model.Decode Model.Pool Model.Dmp Model.Links.
-From WMD Require Import Lib.Difflib Model.RenderTokens Model.RenderMerge Model.LinksHtml.
+From WMD Require Import Lib.Difflib Model.RenderTokens Model.RenderMerge Model.LinksHtml Model.RenderDoc.
 (* unique names for functions whose short names clash across modules *)
 Definition x_links_assemble_diff := Links.assemble_diff.
 Definition x_links_count_changes := Links.count_changes.
@@ -23,6 +23,7 @@ Extraction "extracted.ml"
   Links.links_diff x_links_assemble_diff Links.page_links Links.clean_href x_links_count_changes Links.rebalance
   Links.same_key Links.rough_eq Links.dlink Difflib.get_opcodes Difflib.insensitive_opcodes
   RenderMerge.htmldiff RenderMerge.prepare x_render_tokenize RenderMerge.token_opcodes RenderMerge.merge_changes RenderTokens.url_eq RenderTokens.rule_compare
+  RenderDoc.render_view RenderDoc.selected RenderDoc.kind_name RenderDoc.title_markup
   LinksHtml.links_html LinksHtml.lex LinksHtml.clean LinksHtml.sem_events LinksHtml.events LinksHtml.links_document
   RenderMerge.merge_change_groups RenderMerge.reconcile_change_groups RenderMerge.assemble_diff RenderMerge.render_string
   Coq.Init.Nat.add BinInt.Z.add BinNat.N.to_nat.
